@@ -190,13 +190,28 @@ WholeShapesFor(pos, kind) ==
         mk("1bad", WholeCfg(kind, <<>>), "Root"), mk("1bad", WholeCfg(kind, <<>>), "Poison"),
         mk("2excl", WholeCfg(kind, <<pa.key>>), "Root"), mk("2excl", WholeCfg(kind, <<pa.key>>), "Poison") >>
 
+\* two selected types above the same unmappable nested message, and a healthy one
+SharedPoison(kind) ==
+  LET holder == Msg("Mid", <<Fld("Num", 1, "int32"), BadField(kind)>>, <<>>)
+      d == Desc(<<Leaf, holder, Msg("Poison", <<Fld("Str", 1, "string"), MsgF("Sub", 2, "Mid")>>, <<>>),
+                  Msg("Other", <<Fld("Flag", 1, "bool"), MsgF("Sub", 2, "Mid"), Rep(MsgF("Subs", 3, "Mid"))>>, <<>>), Healthy>>)
+      g == "c18.shared." \o kind
+      cfg(excl) == [WholeCfg(kind, excl) EXCEPT !.types = <<"Poison", "Other", "Root">>]
+      mk(tag, c, root) == [Shape(g \o "." \o tag \o "." \o root, d, c) EXCEPT !.root = root, !.run = g \o "." \o tag, !.group = g,
+                                  !.gchecks = <<GCheck("fn", "C18", "C18.others_intact")>>]
+  IN << mk("0base", [cfg(<<>>) EXCEPT !.types = <<"Root">>], "Root"),
+        mk("1bad", cfg(<<>>), "Root"), mk("1bad", cfg(<<>>), "Poison"), mk("1bad", cfg(<<>>), "Other"),
+        mk("2excl", cfg(<<"Mid.Bad">>), "Root"), mk("2excl", cfg(<<"Mid.Bad">>), "Poison"), mk("2excl", cfg(<<"Mid.Bad">>), "Other") >>
+
 Positions == <<"top", "nested", "list", "map", "embed", "oneof", "deep">>
 BadKinds == <<"time", "dur", "mapkey">>
 GenWholeShapes(long) ==
   IF long THEN FlattenSeq([i \in 1..(Len(Positions) * Len(BadKinds)) |->
                  WholeShapesFor(Positions[((i - 1) \div Len(BadKinds)) + 1], BadKinds[((i - 1) % Len(BadKinds)) + 1])])
+               \o SharedPoison("time") \o SharedPoison("dur") \o SharedPoison("mapkey")
   ELSE WholeShapesFor("top", "time") \o WholeShapesFor("nested", "mapkey") \o WholeShapesFor("list", "dur")
        \o WholeShapesFor("map", "time") \o WholeShapesFor("embed", "mapkey") \o WholeShapesFor("oneof", "dur") \o WholeShapesFor("deep", "time")
+       \o SharedPoison("time")
 
 ---------------------------------------------------------------------------
 \* C16: command line and YAML are equivalent channels; C14: determinism
@@ -241,11 +256,20 @@ DetCfg == [BaseCfg EXCEPT !.types = <<"Root", "Other", "Leaf">>, !.exclude = <<"
                             [k |-> "Leaf", v |-> <<Inj("extra", "bool", FALSE, FALSE, TRUE)>>]>>,
              !.customtypes = <<KV("Root.Alpha", "CustB"), KV("Leaf.Num", "CustN")>>, !.suffixes = <<KV("CustB", "SufB"), KV("CustN", "SufN")>>]
 DetLeaf == Msg("Leaf", <<Fld("Str", 1, "string"), Fld("Num", 2, "int32")>>, <<>>)
+\* a message with four nullable embedded messages (all primitive) and two oneof groups: every per-message list
+\* the generator keeps (resets of holders / embedded parents, fields) has several entries
+DetEmbeds == <<Msg("Inner", <<Fld("Flag", 1, "bool")>>, <<>>), Msg("Mid", <<Fld("Flt", 1, "float")>>, <<>>),
+               Msg("Third", <<Fld("Raw", 1, "bytes")>>, <<>>), Msg("Extra", <<Fld("Kind", 1, "enum"), Fld("Zed", 2, "string")>>, <<>>),
+               Msg("Outer", <<Embed(MsgF("Inner", 1, "Inner")), Embed(MsgF("Mid", 2, "Mid")), Embed(MsgF("Third", 3, "Third")), Embed(MsgF("Extra", 4, "Extra")),
+                              InOneof(Fld("BranchA", 5, "string"), "Grp"), InOneof(Fld("BranchB", 6, "int32"), "Grp"),
+                              InOneof(Fld("BranchC", 7, "string"), "Grp2"), InOneof(Fld("BranchD", 8, "bool"), "Grp2"), Fld("Str", 9, "string")>>, <<"Grp", "Grp2">>)>>
 DetAlts(long) ==
   [k \in 1..(IF long THEN 40 ELSE 10) |-> Alt("repeat." \o ToString(k), "C14.same_sha", <<>>, 0, <<>>)]
   \o [k \in 1..(IF long THEN 20 ELSE 5) |-> Alt("perm." \o ToString(k), "C14.same_sha", <<>>, k, <<>>)]
   \o [k \in 1..(IF long THEN 10 ELSE 3) |-> Alt("cliperm." \o ToString(k), "C14.same_sha", ChanAll("cli"), 100 + k, <<>>)]
 GenDetShapes(long) == <<
+  [Shape("c14.embeds", Desc(DetEmbeds), [BaseCfg EXCEPT !.types = <<"Outer">>, !.alts = DetAlts(long)]) EXCEPT !.root = "Outer"],
+  [Shape("c14.embeds.sorted", Desc(DetEmbeds), [BaseCfg EXCEPT !.types = <<"Outer">>, !.sort = TRUE, !.alts = DetAlts(long)]) EXCEPT !.root = "Outer", !.run = "c14.embeds.sorted"],
   [Shape("c14.multi", Desc(<<DetLeaf, ChanRoot, ChanOther>>), [DetCfg EXCEPT !.alts = DetAlts(long)]) EXCEPT !.root = "Root"],
   [Shape("c14.sorted", Desc(<<DetLeaf, ChanRoot, ChanOther>>), [DetCfg EXCEPT !.sort = TRUE, !.alts = DetAlts(long)]) EXCEPT !.root = "Leaf", !.run = "c14.sorted"] >>
 
@@ -402,6 +426,9 @@ CustomShapes == <<
        [CustCfg(<<KV("Root.Cust", "CustC"), KV("Root.Custs", "CustL")>>, <<KV("CustC", "SufC")>>) EXCEPT
           !.computed = <<"Root.Cust">>, !.sensitive = <<"Root.Custs">>, !.required = <<"Root.Custs">>, !.usfu = TRUE,
           !.validators = <<[k |-> "Root.Cust", v |-> <<"1">>]>>]),
+  With("u.nested", <<Msg("Leaf", <<Fld("Str", 1, "string"), Commented(Fld("Cust", 2, "string"), Com1)>>, <<>>),
+                     Msg("Root", <<MsgF("Sub", 1, "Leaf"), NonNull(MsgF("Sub2", 2, "Leaf")), Fld("Num", 3, "int32")>>, <<>>)>>,
+       CustCfg(<<KV("Root.Sub.Cust", "CustN"), KV("Root.Sub2.Cust", "CustM")>>, <<KV("CustN", "SufN")>>)),
   With("u.two", <<Msg("Root", <<NonNull(Custom(Fld("Cust", 1, "string"), "CustT")), Fld("Extra", 2, "bytes")>>, <<>>)>>,
        CustCfg(<<KV("Root.Extra", "CustX")>>, <<KV("CustT", "SufT")>>)) >>
 =============================================================================
